@@ -125,6 +125,12 @@ int main(int argc, char** argv) {
       printf("b/a = %-5g %s->PHI exact: NaN for %d tangents 2^-1074..2^%d and %d tangents 2^%d..2^1023; worst round trip error for 2^-1000..2^700: %.3g\n", ba, ax == 4 ? "CHI" : "MU", lo,
              lofirst, hi, hifirst, worst);
     }
+  } else if (c == "halfturn") {   // finding of the strengthening pass: a += (0, x < 0) (an angle of 180 degrees) is ignored
+    AuxAngle a(2.0, 0.0), b(0.0, -1.0), c(AuxAngle::degrees(30.0)); AuxAngle a0(a), c0(c);
+    a += b; c += AuxAngle::degrees(180.0);
+    printf("(2, 0) [90 deg] += (0, -1) [180 deg]: (%g, %g) = %.17g deg (expected -90)\n", a.y(), a.x(), a.degrees());
+    printf("degrees(30) += degrees(180): %.17g deg (expected -150); += degrees(179.999999): ", c.degrees());
+    c0 += AuxAngle::degrees(179.999999); printf("%.17g deg\n", c0.degrees());
   } else { fprintf(stderr, "unknown case %s\n", c.c_str()); return 2; }
   } catch (const std::exception& e) { printf("exception: %s\n", e.what()); }
   return 0;
